@@ -67,9 +67,9 @@ Scan(text) ==
 \* a recorded panic is explained by deviation set D iff D holds the deviation of a trigger that
 \* the text has and the panic is the one recorded for that trigger
 PanicExplained(panic, trig, D) ==
-  \E tr \in trig \ {"u_no_brace"} : DevPanic(tr) \in D /\ PanicSig(tr) = panic
-\* after `\u` without brace the implementation's positions are off: no prediction
-Desynced(sc, D) == "u_no_brace" \in sc.trig /\ DevPanic("u_no_brace") \in D
+  \E tr \in trig \cap PanicTriggers : DevPanic(tr) \in D /\ PanicSig(tr) = panic
+\* after a malformed \u escape the implementation's positions are off: no prediction
+Desynced(sc, D) == \E tr \in sc.trig \cap DesyncTriggers : DevDesync(tr) \in D
 
 JudgeParseRes(m, sc, res, blen, D, isFormat) ==
   LET trig == sc.trig \cup (IF sc.ratio /\ ~isFormat THEN {"ratio_fraction"} ELSE {}) IN
@@ -77,8 +77,10 @@ JudgeParseRes(m, sc, res, blen, D, isFormat) ==
   ELSE IF Has(res, "panic") THEN PanicExplained(res.panic, trig, D)
   ELSE IF sc.rd.ok
        THEN LET want == FromProg(m, sc.rd.p) IN
+            \* accept / reject is decided by FromProg; which errors are reported is not part of the
+            \* property (SameErrors below is counted, not demanded)
             IF want.errs = <<>> THEN Has(res, "ok") /\ res.ok = want.list
-            ELSE IsErrs(res, blen) /\ ErrProj(res.errs) = want.errs
+            ELSE IsErrs(res, blen)
        ELSE IF sc.mustErr THEN IsErrs(res, blen)
             ELSE Has(res, "ok") \/ IsErrs(res, blen)
 
@@ -101,7 +103,13 @@ JudgeRt(e, sc, D) ==
   IF Has(e.out, "panic")
   THEN DevPrintFont \in D /\ BigFont(e.m, e.how, e.list) /\ e.out.panic = PrintPanicSig
   ELSE /\ ~(DevPrintFont \in D /\ BigFont(e.m, e.how, e.list))
-       /\ sc.rd.ok /\ sc.rd.p = ToCalls(e.m, e.how, e.list, D)
+       /\ sc.rd.ok
+       \* the printed text must DENOTE the list (which presentation the printer chooses -- positional
+       \* or keyword, merged characters or not -- is its business: counted in SameForm, not demanded);
+       \* a deviation explains an event only if the printed program denotes exactly what the deviant
+       \* printer's program denotes
+       /\ IF D = {} THEN FromProg(e.m, sc.rd.p) = [list |-> e.list, errs |-> <<>>]
+          ELSE FromProg(e.m, sc.rd.p) = FromProg(e.m, ToCalls(e.m, e.how, e.list, D))
        /\ JudgeParseRes(e.m, sc, e.back, e.blen, D, FALSE)
        /\ (D = {} => Has(e.back, "ok") /\ e.back.ok = e.list)
 
@@ -114,7 +122,8 @@ Skip(e, sc) == IF e.ev = "rt" THEN ~WellFormed(e.m, e.list)
                ELSE sc.unspec /\ sc.rd.ok /\ e.ev = "parse"
 
 DevSeq == <<DevRatioSign, DevFormat, DevPrintFont, DevPanic("int_overflow"), DevPanic("dim_overflow"),
-            DevPanic("coef_overflow"), DevPanic("u_overflow"), DevPanic("u_no_brace"), DevPanic("ratio_fraction")>>
+            DevPanic("coef_overflow"), DevPanic("u_overflow"), DevPanic("ratio_fraction"),
+            DevDesync("u_no_brace"), DevDesync("u_unclosed")>>
 Explain(e, sc) == LET hit == {i \in 1..Len(DevSeq) : Judge(e, sc, {DevSeq[i]})} IN
                   IF hit = {} THEN "mismatch" ELSE DevSeq[CHOOSE i \in hit : \A j \in hit : i <= j]
 
@@ -128,21 +137,30 @@ Want(e, sc) ==
 \* how the events of this trace were decided (TLC registers; one worker):
 \*  1 rt   2 parse, exact (text at the call level)   3 parse, errors demanded   4 parse, protocol only
 \*  5 format, exact   6 format, errors demanded   7 format, protocol only
+\* and two agreements that are observed but not demanded by the property:
+\*  8 rt events whose printed program is exactly ToCalls(list)  (the printer's presentation)
+\*  9 / 10 parse events at the call level with errors: all / those whose error sequence (class,
+\*    function, parameter, class of the value) is exactly the one FromProg predicts
+SameForm(e, sc) == e.ev = "rt" /\ Has(e.out, "text") /\ sc.rd.ok /\ sc.rd.p = ToCalls(e.m, e.how, e.list, {})
+WithErrors(e, sc) == e.ev = "parse" /\ sc.rd.ok /\ Has(e.res, "errs") /\ FromProg(e.m, sc.rd.p).errs # <<>>
+SameErrors(e, sc) == WithErrors(e, sc) /\ ErrProj(e.res.errs) = FromProg(e.m, sc.rd.p).errs
+Bump(i, c) == IF c THEN TLCSet(i, TLCGet(i) + 1) ELSE TRUE
 ClassOf(e, sc) == IF e.ev = "rt" THEN 1
                   ELSE (IF e.ev = "parse" THEN 2 ELSE 5) + (IF sc.rd.ok THEN 0 ELSE IF sc.mustErr THEN 1 ELSE 2)
 EvText(e) == IF e.ev = "rt" THEN (IF Has(e.out, "text") THEN e.out.text ELSE <<>>) ELSE e.text
 
-TInit == l = 1 /\ \A i \in 1..7 : TLCSet(i, 0)
+TInit == l = 1 /\ \A i \in 1..10 : TLCSet(i, 0)
 TStep == /\ l <= Len(Rec) /\ l' = l + 1
          /\ LET e  == Rec[l]
                 sc == Scan(EvText(e))
             IN /\ TLCSet(ClassOf(e, sc), TLCGet(ClassOf(e, sc)) + 1)
+               /\ Bump(8, SameForm(e, sc)) /\ Bump(9, WithErrors(e, sc)) /\ Bump(10, SameErrors(e, sc))
                /\ IF Skip(e, sc) THEN PrintT(<<"VERDICT", ToJson([l |-> l, key |-> "skip-outside-quantifier"])>>)
                   ELSE IF Judge(e, sc, {}) THEN TRUE
                   ELSE PrintT(<<"VERDICT", ToJson([l |-> l, key |-> Explain(e, sc), want |-> Want(e, sc)])>>)
 TSpec == TInit /\ [][TStep]_l
 Matched == TLCGet("stats").diameter - 1
-TraceAccepted == /\ PrintT(<<"STATS", ToJson([i \in 1..7 |-> TLCGet(i)])>>)
+TraceAccepted == /\ PrintT(<<"STATS", ToJson([i \in 1..10 |-> TLCGet(i)])>>)
                  /\ \/ Matched = Len(Rec)
                     \/ PrintT(<<"MATCHED", Matched>>) /\ FALSE
 =============================================================================
